@@ -4,7 +4,7 @@
    The model (Validate_Model.eval_bexpr) evaluates bound expressions exactly in Q.  Here the same
    expressions are evaluated as the C++ does (int op int in int, anything else in double, with Coq's
    primitive binary64 floats, evaluated by vm_compute inside coqc only; never extracted) and compared
-   with the exact value: for every N in [1, 4096] the double bound is within 2^-53 (relative) of the
+   with the exact value: for every N in [1, 65536] the double bound is within 2^-53 (relative) of the
    exact bound and EQUAL to it whenever the exact bound is itself a double.  Hence model and code can
    classify a value differently only if it lies strictly between the exact bound and its rounding,
    i.e. closer than one unit in the last place to the bound. *)
@@ -76,59 +76,66 @@ Definition float_bound_ok (b : bexpr) (n : Z) : bool :=
       (if is_double exact then Qeq_bool f exact else true)
   end.
 
-Definition range_1_4096 : list Z := map Z.of_nat (seq 1 4096).
+(* a complete sweep of an integer interval, by evaluation *)
+Fixpoint forall_from (f : Z -> bool) (start : Z) (len : nat) : bool :=
+  match len with
+  | O => true
+  | S l => f start && forall_from f (start + 1) l
+  end.
 
-Lemma in_range_1_4096 : forall n, 1 <= n <= 4096 -> In n range_1_4096.
+Lemma forall_from_spec : forall f len start,
+  forall_from f start len = true -> forall n, start <= n < start + Z.of_nat len -> f n = true.
 Proof.
-  intros n H. unfold range_1_4096. replace n with (Z.of_nat (Z.to_nat n)) by lia.
-  apply in_map. apply in_seq. lia.
+  intros f. induction len as [|l IH]; intros start H n R.
+  - cbn in R. lia.
+  - cbn [forall_from] in H. apply andb_true_iff in H. destruct H as [H0 H1].
+    destruct (Z.eq_dec n start) as [->|N]; auto.
+    apply (IH (start + 1) H1). lia.
 Qed.
 
 Definition both_ok (n : Z) : bool :=
   float_bound_ok (BDiv (BReal 3) BN) n && float_bound_ok (BDiv (BSub BN (BInt 1)) (BReal 3)) n.
 
-Lemma all_ok_4096 : forallb both_ok range_1_4096 = true.
+(* wave 2: the sweep covers 1 .. 65536 (about 40 s of vm_compute); it was 1 .. 4096 *)
+Lemma all_ok_65536 : forall_from both_ok 1 (Z.to_nat 65536) = true.
 Proof. vm_compute. reflexivity. Qed.
 
-Lemma float_bounds_ok_4096 : forall n, 1 <= n <= 4096 ->
+Lemma float_bounds_ok_65536 : forall n, 1 <= n <= 65536 ->
   float_bound_ok (BDiv (BReal 3) BN) n = true /\
   float_bound_ok (BDiv (BSub BN (BInt 1)) (BReal 3)) n = true.
 Proof.
-  intros n H. pose proof all_ok_4096 as A. rewrite forallb_forall in A.
-  specialize (A n (in_range_1_4096 n H)). unfold both_ok in A.
-  now apply andb_true_iff in A.
+  intros n H. pose proof (forall_from_spec _ _ _ all_ok_65536 n) as A.
+  assert (R : 1 <= n < 1 + Z.of_nat (Z.to_nat 65536)) by (rewrite Z2Nat.id; lia).
+  specialize (A R). unfold both_ok in A. now apply andb_true_iff in A.
 Qed.
 
 (* ------------------------------------------------------------------ int(N * landmark_ratio)
    static_cast<IndexType>(n_vectors * static_cast<ScalarType>(parameters[landmark_ratio])): the product
    is rounded to binary64 before it is truncated.  For the ratios the harness generates (multiples of
-   1/64, N <= 64) the product is exact, so the binary64 count equals the exact count of the model. *)
+   1/64; here all multiples of 1/256, N <= 256) the product is exact, so the binary64 count equals the
+   exact count of the model. *)
 Definition landmarks_expr : bexpr := BTrunc (BMul BN (BParam 12%nat TScalar)).
 
 Definition env_ratio (n : Z) (q : Q) : env :=
   {| e_n := n; e_dim := 0; e_get := fun k => if Nat.eqb k 12 then Some (VScalar q) else None |}.
 
 Definition landmarks_ok (n k : Z) : bool :=
-  let E := env_ratio n (k # 64) in
+  let E := env_ratio n (k # 256) in
   match feval E landmarks_expr, eval_bexpr E landmarks_expr with
   | FI a, NI b => a =? b
   | _, _ => false
   end.
 
-Definition range_0_64 : list Z := map Z.of_nat (seq 0 65).
-
-Lemma in_range_0_64 : forall n, 0 <= n <= 64 -> In n range_0_64.
-Proof.
-  intros n H. unfold range_0_64. replace n with (Z.of_nat (Z.to_nat n)) by lia.
-  apply in_map. apply in_seq. lia.
-Qed.
-
-Lemma all_landmarks_ok : forallb (fun n => forallb (landmarks_ok n) range_0_64) range_0_64 = true.
+(* wave 2: N <= 256 and every ratio k/256 (it was N <= 64, k/64) *)
+Lemma all_landmarks_ok :
+  forall_from (fun n => forall_from (landmarks_ok n) 0 (Z.to_nat 257)) 0 (Z.to_nat 257) = true.
 Proof. vm_compute. reflexivity. Qed.
 
-Lemma landmarks_ok_64 : forall n k, 0 <= n <= 64 -> 0 <= k <= 64 -> landmarks_ok n k = true.
+Lemma landmarks_ok_256 : forall n k, 0 <= n <= 256 -> 0 <= k <= 256 -> landmarks_ok n k = true.
 Proof.
-  intros n k Hn Hk. pose proof all_landmarks_ok as A. rewrite forallb_forall in A.
-  specialize (A n (in_range_0_64 n Hn)). rewrite forallb_forall in A.
-  exact (A k (in_range_0_64 k Hk)).
+  intros n k Hn Hk.
+  assert (R : forall z, 0 <= z <= 256 -> 0 <= z < 0 + Z.of_nat (Z.to_nat 257))
+    by (intros; rewrite Z2Nat.id; lia).
+  pose proof (forall_from_spec _ _ _ all_landmarks_ok n (R n Hn)) as A. cbv beta in A.
+  exact (forall_from_spec _ _ _ A k (R k Hk)).
 Qed.
